@@ -201,9 +201,9 @@ def coq_eval_cases(model_module, cases, wd, shard=800, extra_imports=(), timeout
         f = os.path.join(wd, 'zz_%s_%d.v' % (tag, k))
         with open(f, 'w') as fh:
             fh.write('From Coq Require Import List NArith ZArith Bool String.\nImport ListNotations.\n')
-            fh.write('From Wesh Require Import %s.\n' % model_module)
             for imp in extra_imports:
                 fh.write(imp + '\n')
+            fh.write('From Wesh Require Import %s.\n' % model_module)
             fh.write('Open Scope %s.\n' % scope)
             fh.write('Definition cases : list case := [\n')
             fh.write(';\n'.join('  (' + c + ')' for c in shards[k]))
